@@ -427,6 +427,10 @@ struct SctpInner {
 
     // Inbound stream state for ordered delivery
     inbound_streams: Mutex<HashMap<u16, InboundStream>>,
+    // Per-stream reassembly of DCEP messages that span several DATA chunks (an
+    // OPEN with a long label); the channel, and with it the per-channel
+    // reassembly buffer, does not exist yet when an OPEN arrives.
+    dcep_reassembly: Mutex<HashMap<u16, BytesMut>>,
 
     // PR-SCTP: Advanced Peer Ack Point (RFC 3758)
     advanced_peer_ack_tsn: AtomicU32,
@@ -870,6 +874,7 @@ impl SctpTransport {
                 key
             },
             inbound_streams: Mutex::new(HashMap::new()),
+            dcep_reassembly: Mutex::new(HashMap::new()),
             advanced_peer_ack_tsn: AtomicU32::new(0),
             forward_tsn_pending: AtomicBool::new(false),
             forward_tsn_streams: Mutex::new(Vec::new()),
@@ -2825,7 +2830,33 @@ impl SctpInner {
             // routed through InboundStream, but they consume an SSN on the
             // sender side when sent ordered.
             let unordered = (flags & 0x04) != 0;
-            if !unordered {
+            // A DCEP message larger than one chunk (an OPEN with a long label or
+            // protocol) is fragmented by the sender like any other message:
+            // reassemble it before parsing. A fragment without its B fragment
+            // is dropped, and so is a message beyond what an OPEN can be.
+            let b_bit = (flags & 0x02) != 0;
+            let e_bit = (flags & 0x01) != 0;
+            let message = if b_bit && e_bit {
+                Some(user_data)
+            } else {
+                const MAX_DCEP_MESSAGE: usize = 12 + 2 * 65535;
+                let mut pending = self.dcep_reassembly.lock();
+                if b_bit {
+                    pending.insert(stream_id, BytesMut::from(&user_data[..]));
+                } else if let Some(partial) = pending.get_mut(&stream_id) {
+                    if partial.len() + user_data.len() > MAX_DCEP_MESSAGE {
+                        pending.remove(&stream_id);
+                    } else {
+                        partial.extend_from_slice(&user_data);
+                    }
+                }
+                if e_bit {
+                    pending.remove(&stream_id).map(|m| m.freeze())
+                } else {
+                    None
+                }
+            };
+            if e_bit && !unordered {
                 let mut streams = self.inbound_streams.lock();
                 let stream = streams.entry(stream_id).or_insert_with(InboundStream::new);
                 // Treat it like a delivered message: enqueue and discard the
@@ -2836,7 +2867,9 @@ impl SctpInner {
                 // deliverable, but DCEP messages arrive before any data
                 // channel exists, so there shouldn't be anything to deliver.
             }
-            self.handle_dcep(stream_id, user_data).await?;
+            if let Some(message) = message {
+                self.handle_dcep(stream_id, message).await?;
+            }
             return Ok(());
         }
 
